@@ -256,6 +256,21 @@ theorem bindItem_leaf (e : DEnv) (rec : Rec) (Γ : Ctx) (cfg : ParserConfig) (m 
     Bool.not_false, Bool.true_and, scalarType, hty', hnc, leafOf, ho]
   rfl
 
+/-- a field of a converter type given any text the converter reads: the canonical form is bound -/
+theorem bindItem_leaf_to (e : DEnv) (rec : Rec) (Γ : Ctx) (cfg : ParserConfig) (m : XmlMeta) (var : XmlVar)
+    (hv : varTyped var = true) (name x y : Str) (hty : var.types = [.other name]) (ho : e.other name x = some y) :
+    bindItemWith e rec Γ cfg m var (.str x) = ND.pure (.prim (.str y)) := by
+  obtain ⟨h1, h2, h3, h4, _, _, h7⟩ := varTyped_facts hv
+  have h2' : var.toVarCore.isWildcard = false := h2
+  have h4' : var.toVarCore.anyType = false := h4
+  have h7' : var.toVarCore.tokens = false := h7
+  have hty' : var.toVarCore.types = [.other name] := hty
+  have hnc : ([TypeRef.other name].contains (TypeRef.prim PT.str)) = false := by simp
+  unfold bindItemWith
+  simp only [h1, Bool.false_eq_true, if_false, Xs.Dict.bindText, h3, bindTextPlain, h2', h4', Bool.or_self, h7',
+    Bool.not_false, Bool.true_and, scalarType, hty', hnc, leafOf, ho]
+  rfl
+
 theorem keysEq_false_of_not_mem {α} (d : List (Str × α)) (ks : List Str) (k : Str) (hk : k ∈ ks)
     (hn : k ∉ kvKeys d) : keysEq d ks = false := by
   unfold keysEq
